@@ -18,10 +18,10 @@ import (
 
 func execC15(ctx *Ctx, in *Input) *Result {
 	res := &Result{}
-	sz := feedSizes{Sentences: 16, MaxLen: 30, Exhaustive: 40, Mutants: 30, Prefixes: 2}
+	sz := feedSizes{Sentences: 16, MaxLen: 30, Exhaustive: 40, Mutants: 30, Prefixes: 2, NoVeryLong: true}
 	nHist, histLen, nInter := 4, 8, 6
 	if ctx.Thorough() {
-		sz = feedSizes{Sentences: 40, MaxLen: 40, Exhaustive: 120, Mutants: 80, Prefixes: 4}
+		sz = feedSizes{Sentences: 40, MaxLen: 40, Exhaustive: 120, Mutants: 80, Prefixes: 4, NoVeryLong: true}
 		nHist, histLen, nInter = 20, 14, 40
 	}
 	pb, ok := prepareBatch(ctx, res, in, wl.AllVariants, wl.EpiFull, sz)
@@ -70,7 +70,11 @@ func execC15(ctx *Ctx, in *Input) *Result {
 				q := rr.Sub(u.Variant.String(), "hist", h)
 				var ops []engbrt.Op
 				var idx []int
-				for k := 0; k < histLen; k++ {
+				hl := histLen
+				if h == 0 {
+					hl = 120 // one long history per parser: state carried across many operations
+				}
+				for k := 0; k < hl; k++ {
 					fi := pick(q)
 					// re-initialise before every parse (that is the contract); in object mode sometimes a fresh context
 					if u.Variant.Object && q.Chance(1, 4) {
@@ -382,7 +386,7 @@ func init() {
 	gen := genParsers("C15", false)
 	Register(&Checker{
 		ID: "C15", Level: "exploration", Engine: "B",
-		Rule: "case = batch of grammars x 5 variants. (a) histories on one parser: seeded sequences of init (or a fresh context) + parse(x), x drawn from accepted, rejected (parse aborted by the parser's own panic) and lexer-fails-at-token-i inputs of different lengths; (b) -o variants: 2-4 contexts, each with its own op list, advanced one yield point (every GetToken call and every reduction) at a time by a seeded scheduler with uniform / burst / switch-after-reduce policies, half of them with the trace on (output attributed per context). (c) in some batches the contexts of every -o parser also run in truly parallel goroutines in a -race build of the driver (results compared with solo runs; a race report with a frame in generated code is a violation; this part is not exactly replayable). Oracle: every parse equals the same input parsed alone right after initialisation (verdict, reductions, tokens requested, value, trace). distinct_nontrivial = distinct interleavings (context-id sequences) + distinct grammars.",
+		Rule:     "case = batch of grammars x 5 variants. (a) histories on one parser: seeded sequences of init (or a fresh context) + parse(x), x drawn from accepted, rejected (parse aborted by the parser's own panic) and lexer-fails-at-token-i inputs of different lengths; (b) -o variants: 2-4 contexts, each with its own op list, advanced one yield point (every GetToken call and every reduction) at a time by a seeded scheduler with uniform / burst / switch-after-reduce policies, half of them with the trace on (output attributed per context). (c) in some batches the contexts of every -o parser also run in truly parallel goroutines in a -race build of the driver (results compared with solo runs; a race report with a frame in generated code is a violation; this part is not exactly replayable). Oracle: every parse equals the same input parsed alone right after initialisation (verdict, reductions, tokens requested, value, trace). distinct_nontrivial = distinct interleavings (context-id sequences) + distinct grammars.",
 		NumCases: func(ctx *Ctx) int { return fixedCases(ctx, 32, 800) },
 		Gen: func(ctx *Ctx, i int) *Input {
 			in := gen(ctx, i)
